@@ -226,7 +226,11 @@ func AllBlockedOnChannels(gs []Goroutine) bool {
 		switch st {
 		case "chan send", "chan receive", "select", "chan send (nil chan)", "chan receive (nil chan)", "select (no cases)",
 			"semacquire", "sync.WaitGroup.Wait", "sync.Cond.Wait", "sync.Mutex.Lock", "sync.RWMutex.Lock", "sync.RWMutex.RLock":
-			// parked on a channel or on a sync primitive: only another goroutine can wake it
+			// parked on a channel or on a sync primitive: only another goroutine can wake it -
+			// except the collector's Await, which waits on a condition variable WITH a timeout
+			if strings.Contains(g.Text, "vt.(*Collector).Await") {
+				return false
+			}
 		default:
 			return false
 		}
